@@ -231,12 +231,17 @@ def _classify_return(f: Fn, node, v: ast.AST, depth: int = 0) -> str:
         return 'pyint'
     if method_call(v, 'item') and not v.args:
         return 'pyint'
+    if method_call(v, 'tolist') and not v.args:
+        # ndarray.tolist(): Python scalars all the way down (a list of ints for a 1-D index array)
+        return 'pylist' if _classify_return(f, node, v.func.value, depth + 1) in ('ndarray', 'npscalar') else 'unknown'
     if method_call(v, 'index', 'get_loc'):
         return 'library'
     if isinstance(v, ast.Subscript):
         base = _classify_return(f, node, v.value, depth + 1)
         if base in ('ndarray', 'ndarray-tuple'):
             return 'ndarray' if base == 'ndarray-tuple' else 'npscalar'
+        if base == 'pylist' and not isinstance(v.slice, ast.Slice):
+            return 'pyint'
         return 'unknown'
     if isinstance(v, ast.Name):
         vals = f.lf.values_reaching(node.id, v.id)
@@ -249,7 +254,7 @@ def _classify_return(f: Fn, node, v: ast.AST, depth: int = 0) -> str:
             a = f.cfg.nodes[s].ast if s >= 0 else None
             if isinstance(a, ast.Assign) and isinstance(a.targets[0], (ast.Tuple, ast.List)):
                 src = _classify_return(f, f.cfg.nodes[s], a.value, depth + 1)
-                kinds.add({'ndarray': 'npscalar', 'ndarray-tuple': 'ndarray'}.get(src, 'unknown'))
+                kinds.add({'ndarray': 'npscalar', 'ndarray-tuple': 'ndarray', 'pylist': 'pyint'}.get(src, 'unknown'))
             else:
                 kinds.add('unknown')
         return kinds.pop() if len(kinds) == 1 else 'unknown'
